@@ -375,7 +375,11 @@ def _only_reduced(b, t, depth=0):
     from mirfacts import callee_path
     if t['dest']['proj'] or depth > 5:
         return False
-    d = t['dest']['l']
+    return _local_only_reduced(b, t['dest']['l'], depth)
+
+
+def _local_only_reduced(b, d, depth):
+    from mirfacts import callee_path
     uses = []
     for blk in b.blocks:
         if blk['cleanup']:
@@ -388,6 +392,14 @@ def _only_reduced(b, t, depth=0):
             uses.append(('call', tt))
         elif tt['t'] not in ('call', 'drop') and _mentions_local(tt, d):
             uses.append(('term', tt))
+    if len(uses) == 1 and uses[0][0] == 'stmt' and depth <= 5:
+        st = uses[0][1]
+        rv = st['rv']
+        # `&mut it` (reducers like `all` / `any` / `position` take the iterator by reference) or a plain move into another local
+        if not st['p']['proj'] and ((rv.get('r') == 'ref' and not rv['p']['proj'] and rv['p']['l'] == d) or
+                                    (rv.get('r') == 'use' and rv['op'].get('o') in ('move', 'copy') and not rv['op']['p']['proj'] and rv['op']['p']['l'] == d)):
+            return _local_only_reduced(b, st['p']['l'], depth + 1)
+        return False
     if len(uses) != 1 or uses[0][0] != 'call':
         return False
     ut = uses[0][1]
